@@ -63,6 +63,7 @@ class PropertyRun:
         self.backends = {}
         self.solver_s = 0.0
         self.bounded = []
+        self.unexpected_unreached = []
         self.explanation = ''
 
     # -- intake -----------------------------------------------------------------------------
@@ -76,8 +77,12 @@ class PropertyRun:
         if rep.get('error'):
             self.errors.append(f"{rep['function']}: {rep['error'][-600:]}")
             return
-        if rep.get('out_of_reach'):
-            self.not_proved.append(f"{rep['function']}{rep.get('case', '')}: not proved in this run — {rep['out_of_reach']}")
+        if rep.get('out_of_reach') or (rep.get('error') and contract is not None and hasattr(contract, 'model')):
+            why = rep.get('out_of_reach') or ('checker error: ' + rep['error'][-300:])
+            self.not_proved.append(f"{rep['function']}{rep.get('case', '')}: not proved in this run — {why}")
+            if 'thorough tier only' not in why:
+                self.unexpected_unreached.append(rep['function'] + rep.get('case', ''))
+                self.sampled_fallback(rep, contract)
             return
         for t in rep.get('trusted', []):
             self.trusted.add(t)
@@ -92,6 +97,22 @@ class PropertyRun:
                 if len(self.samples) < 6 and ob['kind'] == 'post':
                     self.samples.append({'function': rep['function'], 'obligation': ob['name'], 'path': ob['path'],
                                          'verdict': 'unsat', 'backend': ob['backend'], 'secs': ob['secs']})
+            elif ob['verdict'] == 'sat-weakened':
+                # undecided obligation with a candidate counter-model from a weakened query: a violation only if the
+                # native replay reproduces it
+                rp = {}
+                if ob.get('inputs') and replayer is not None:
+                    try:
+                        rp = replayer(contract, ob['inputs'])
+                    except Exception as e:
+                        rp = {'error': f'{type(e).__name__}: {e}'}
+                if rp.get('reproduced'):
+                    self.failures.append({'obligation': ob['name'], 'function': rep['function'], 'path': ob['path'],
+                                          'inputs': ob.get('inputs'), 'replay': rp,
+                                          'solver': {'backend': ob['backend'], 'verdict': 'unknown; candidate model from the quantifier-free weakening reproduced natively',
+                                                     'output': ob.get('reason', '')}})
+                else:
+                    self.undecided.append({'obligation': ob['name'], 'function': rep['function'], 'reason': ob.get('reason', '')})
             elif ob['verdict'] in ('sat', 'sat-no-model'):
                 fail = {'obligation': ob['name'], 'function': rep['function'], 'path': ob['path'],
                         'inputs': ob.get('inputs'), 'solver': {'backend': ob['backend'], 'verdict': ob['verdict'],
@@ -104,6 +125,26 @@ class PropertyRun:
                 self.failures.append(fail)
             else:
                 self.undecided.append({'obligation': ob['name'], 'function': rep['function'], 'reason': ob.get('reason', '')})
+
+    def sampled_fallback(self, rep, contract):
+        """bounded stand-in for a function the verifier cannot reach: run-time contract check on native samples"""
+        if contract is None or not hasattr(contract, 'model'):
+            return
+        try:
+            from .sampled import sampled_check
+            from .interp import Engine, Config, Ctx, Interp
+            from .source import Repo
+            ip = Interp(Ctx(Engine(Repo(), Config()), []))
+            evals, distinct, fails = sampled_check(contract, ip, n=80, seed=int(os.environ.get('VERIF_SEED', '0') or 0))
+        except Exception as e:
+            self.errors.append(f"{rep['function']}: sampled fallback failed: {type(e).__name__}: {e}")
+            return
+        self.bounded.append(f"{rep['function']}: bounded stand-in — run-time contract check on {evals} native samples ({distinct} distinct outcomes)")
+        for f in fails[:1]:
+            self.failures.append({'obligation': f"{rep['function']}.sampled." + '+'.join(f['failed_clauses']),
+                                  'function': rep['function'], 'path': '', 'inputs': f['inputs'],
+                                  'replay': {'reproduced': True, 'observed': f['observed']},
+                                  'solver': {'backend': 'native-sampled', 'verdict': 'contract clause false on a native execution', 'output': ''}})
 
     def add_obligation(self, name, verdict, backend='z3', secs=0.0, detail=None, function=None, inputs=None, replay=None):
         """An obligation discharged outside the function harness (table lemmas, spec lemmas, regex-language facts)."""
@@ -208,10 +249,12 @@ class PropertyRun:
                    f'{len(self.undecided)} undecided, {len(self.not_proved)} not proved, '
                    f'{round(time.time() - self.t0, 1)} s')
         print(summary)
+        for u in self.unexpected_unreached:
+            print(f'UNDECIDED property={self.prop} function {u} is outside the verifier\'s reach on this tree (see evidence: not_proved / bounded_stand_ins)')
         if nviol:
             return 1
         if self.errors:
             return 3
-        if self.undecided:
+        if self.undecided or self.unexpected_unreached:
             return 2
         return 0
